@@ -27,12 +27,13 @@ type EP struct {
 }
 
 type Case struct {
-	Bundle    []string // caA | caB | bundleAB
+	Bundle    []string // caA | caB | bundleAB | "" (an empty path); no entry at all = an empty list
 	Endpoints []EP
 }
 
 func gen(t *rapid.T) Case {
-	c := Case{Bundle: rapid.SampledFrom([][]string{{"caA"}, {"caB"}, {"caA", "caB"}, {"bundleAB"}, {"caB", "caA"}, {"caA", "caA"}}).Draw(t, "bundle")}
+	c := Case{Bundle: rapid.SampledFrom([][]string{{"caA"}, {"caB"}, {"caA", "caB"}, {"bundleAB"}, {"caB", "caA"}, {"caA", "caA"},
+		{"caA"}, {"caB"}, {"caA", "caB"}, {}, {""}, {"", ""}, {"", "caA"}}).Draw(t, "bundle")}
 	n := rapid.IntRange(1, 3).Draw(t, "n")
 	for i := 0; i < n; i++ {
 		l := fmt.Sprintf("e%d", i)
@@ -108,8 +109,14 @@ func exec(c Case) (vh.Outcome, error) {
 	}
 	defer g.Stop()
 	f := vh.Farm()
-	var files []string
+	files := []string{}
+	degenerate := len(c.Bundle) == 0
 	for _, b := range c.Bundle {
+		if b == "" {
+			files = append(files, "")
+			degenerate = true
+			continue
+		}
 		files = append(files, f.CAFile(b))
 	}
 	signer, err := crypki.NewSigner(crypki.SignerConfig{
@@ -117,7 +124,15 @@ func exec(c Case) (vh.Outcome, error) {
 		CrypkiEndpoints: ips, CrypkiPort: uint(g.Port), Retries: 1, PerTryTimeout: 10 * time.Second,
 	})
 	if err != nil {
+		if degenerate {
+			// an empty list or an empty path may be refused as a configuration error: nothing is signed then
+			out.Classes = append(out.Classes, "degenerate-bundle-refused")
+			return out, nil
+		}
 		return out, vh.Errf("NewSigner failed (bundle %v): %v", c.Bundle, err)
+	}
+	if degenerate {
+		out.Classes = append(out.Classes, "degenerate-bundle-accepted")
 	}
 	req := &pb.SSHCertificateSigningRequest{KeyMeta: &pb.KeyMeta{Identifier: "ssh-user-key"}, Principals: []string{"user_a"}, PublicKey: string(ssh.MarshalAuthorizedKey(vh.SSHPub("p256b"))), Validity: 3600, KeyId: "k"}
 	ctx, cancel := context.WithTimeout(context.Background(), 30*time.Second)
@@ -165,7 +180,7 @@ func exec(c Case) (vh.Outcome, error) {
 	return out, nil
 }
 
-const rule = "CA bundles of one or two files (single CA, the other CA, both as separate files, both in one file, a file listed twice); 1..3 endpoints on loopback aliases, each a real gRPC-over-TLS server with identity {issued by configured CA A / CA B with matching IP SAN, by a foreign CA, self-signed, expired, not yet valid, valid for another address} x protocol range {TLS 1.0-1.1 only, 1.2 only, 1.3 only, any} x client-certificate policy {none, request, require+verify, request while naming another CA, verify-if-given against the right / another client CA}; every server would sign (each with its own certificate, so the answering server is identifiable). Oracle: Sign succeeds iff some endpoint is genuine (issued by a CA of the bundle, right address, valid now, speaks >= TLS 1.2) and the answer is the first such endpoint's; impostors never receive the RPC; negotiated version >= 1.2; when the server asked, the peer certificate is byte-identical to the configured client certificate. Non-trivial: at least one impostor in the list."
+const rule = "CA bundles of one or two files (single CA, the other CA, both as separate files, both in one file, a file listed twice) and, 4 in 13, degenerate ones (no file at all, empty paths, an empty path next to a real file: either refused as configuration, or no CA beyond the readable files is trusted); the 'foreign' CA is installed as this process's host trust store (SSL_CERT_FILE), i.e. it stands for a publicly trusted CA that is not configured; 1..3 endpoints on loopback aliases, each a real gRPC-over-TLS server with identity {issued by configured CA A / CA B with matching IP SAN, by a foreign CA, self-signed, expired, not yet valid, valid for another address} x protocol range {TLS 1.0-1.1 only, 1.2 only, 1.3 only, any} x client-certificate policy {none, request, require+verify, request while naming another CA, verify-if-given against the right / another client CA}; every server would sign (each with its own certificate, so the answering server is identifiable). Oracle: Sign succeeds iff some endpoint is genuine (issued by a CA of the bundle, right address, valid now, speaks >= TLS 1.2) and the answer is the first such endpoint's; impostors never receive the RPC; negotiated version >= 1.2; when the server asked, the peer certificate is byte-identical to the configured client certificate. Non-trivial: at least one impostor in the list."
 
 func TestC18TLS(t *testing.T) {
 	vh.Run(t, vh.Spec[Case]{Property: "C18", Name: "TestC18TLS", Rule: rule, Gen: gen, Exec: exec})
@@ -181,7 +196,15 @@ func TestC18Grid(t *testing.T) {
 			}
 		}
 	}
+	// degenerate bundles: no file, empty paths, an empty path beside CA A
+	for _, b := range [][]string{{}, {""}, {"", ""}, {"", "caA"}, {"caA", ""}} {
+		for _, id := range []string{"caA", "caB", "foreign", "selfsigned", "expired", "notyet", "wrongname"} {
+			for _, ca := range []string{"none", "request"} {
+				cases = append(cases, Case{Bundle: b, Endpoints: []EP{{id, "any", ca}, {"caA", "any", "request"}}})
+			}
+		}
+	}
 	vh.Enumerate(t, vh.Spec[Case]{Property: "C18", Name: "TestC18Grid", Exhaustive: true,
-		Rule: "bundle = CA A; first endpoint: 7 identities x 4 protocol ranges x 6 client-certificate policies (168 points), second endpoint genuine: the later genuine endpoint must be used exactly when the first is an impostor; same oracle",
+		Rule: "bundle = CA A; first endpoint: 7 identities x 4 protocol ranges x 6 client-certificate policies (168 points), second endpoint genuine: the later genuine endpoint must be used exactly when the first is an impostor; plus 5 degenerate bundles (no file, one or two empty paths, an empty path before / after CA A) x 7 identities x 2 client-certificate policies (70 points; the foreign CA is the host-trusted one); same oracle",
 		Exec: exec}, cases)
 }
